@@ -770,7 +770,7 @@ class Server:
         return rc
 
 
-def tcp_exchange(addr, m, quiet_wait=0.25, timeout=8.0):
+def tcp_exchange(addr, m, quiet_wait=0.25, timeout=20.0):
     """-> (octets received before the server closed, note)"""
     try:
         s = socket.create_connection(addr, timeout=timeout)
@@ -798,13 +798,14 @@ def tcp_exchange(addr, m, quiet_wait=0.25, timeout=8.0):
         if m.transport == "To":
             # the peer stays connected and silent: whatever the server sends within the wait (a complete
             # message is answered and the connection closed; an incomplete one must get nothing)
-            s.settimeout(quiet_wait)
+            wait = quiet_wait if m.expected in (None, "none", "unserialisable") else timeout
+            s.settimeout(wait)
             out = bytearray()
             while True:
                 try:
                     d = s.recv(1 << 17)
                 except socket.timeout:
-                    return bytes(out), "peer open: %d octets within %.0f ms, connection still open" % (len(out), quiet_wait * 1000)
+                    return bytes(out), "peer open: %d octets within %.0f ms, connection still open" % (len(out), wait * 1000)
                 except OSError as e:
                     return bytes(out), "error: %s" % e
                 if not d:
@@ -833,9 +834,11 @@ def tcp_exchange(addr, m, quiet_wait=0.25, timeout=8.0):
             pass
 
 
-def udp_batch(addr, socks, batch, sentinel_payload, next_id, deadline=3.0, quiet=0.12):
+def udp_batch(addr, socks, batch, sentinel_payload, next_id, deadline=20.0, quiet=0.12):
     """send the batch round-robin over the sockets, then one sentinel query per socket; collect
-    datagrams until every socket's sentinel reply is in and nothing arrived for `quiet` seconds.
+    datagrams until every socket's sentinel reply and every reply the model predicts are in (the
+    prediction is used for WAITING only -- a loaded machine may take long -- never for judging) and
+    nothing more arrived for `quiet` seconds; give up after `deadline` seconds.
     -> (replies per message index: list of datagrams, sentinel ok per socket, stray datagrams)"""
     k = len(socks)
     by_key = {}
@@ -856,9 +859,10 @@ def udp_batch(addr, socks, batch, sentinel_payload, next_id, deadline=3.0, quiet
     stray = []
     t_end = time.time() + deadline
     last = time.time()
+    awaited = {i for i, m in enumerate(batch) if m.expected not in (None, "none", "unserialisable") and len(m.data) >= 2}
     while True:
         now = time.time()
-        if all(x is not None for x in sentinel) and now - last >= quiet:
+        if all(x is not None for x in sentinel) and not awaited and now - last >= quiet:
             break
         if now >= t_end:
             break
@@ -877,6 +881,7 @@ def udp_batch(addr, socks, batch, sentinel_payload, next_id, deadline=3.0, quiet
             if idxs:
                 # several messages of the batch cannot share (socket, id): ids are unique per batch
                 replies[idxs[0]].append(d)
+                awaited.discard(idxs[0])
             else:
                 stray.append((si, d))
     return replies, sentinel, stray
@@ -1081,6 +1086,19 @@ def model_expectations(cfg, msgs, run_dir, tag):
 
 # ---- driving one configuration --------------------------------------------------------
 
+def lenient(m):
+    """the client does not give the server a fair chance to deliver its reply: it closes without
+    reading, or it sends more octets than it announced -- the server then closes with unread input,
+    the kernel turns that into a RST, and whatever part of the reply was not yet on the wire
+    (the payload is a second small write, held back by Nagle) is lost.  For these connections no
+    reply, a bare prefix or a partial payload are all accepted; a COMPLETE reply is checked as usual."""
+    if m.transport in ("Tc", "Tr"):
+        return True
+    if m.transport in ("Te", "To") and len(m.data) >= 2:
+        return len(m.data) - 2 > struct.unpack(">H", m.data[:2])[0]
+    return False
+
+
 def split_tcp_replies(stream):
     """the octets the server wrote on one connection -> (list of reply payloads, framing error or None)"""
     if not stream:
@@ -1144,10 +1162,14 @@ def run_config(cfg, msgs, run_dir, tag, rng, fails, stats, batch_size=96):
                     continue
                 pl, err = split_tcp_replies(stream)
                 m.got = pl
+                if lenient(m) and (err or not pl):
+                    m.got = None                   # nothing is asserted about an incomplete or missing reply here
+                    stats["lenient_incomplete"] = stats.get("lenient_incomplete", 0) + 1
+                    continue
                 if err and m.transport in ("Te", "To") and not note.startswith("peer open"):
                     fails.append(core.Failure("tcp-prefix-wrong", err, case=case_of(m), impl=hexb(stream[:40])))
                 if note.startswith("timeout"):
-                    fails.append(core.Failure("tcp-not-closed", "the server neither answered nor closed the connection within 8 s",
+                    fails.append(core.Failure("tcp-not-closed", "the server neither answered nor closed the connection within 20 s",
                                               case=case_of(m)))
             for si, d in stray:
                 fails.append(core.Failure("stray-datagram", "a datagram that answers nothing sent on that socket: %s" % d[:16].hex(),
